@@ -11,15 +11,25 @@ KD = 'crates/emmylua_parser/src/kind/'
 GM = 'crates/emmylua_parser/src/grammar/mod.rs'
 
 STD_REQ = 'gram_pre(old(p))'
-STD_ENS = 'gram_post(old(p), final(p)) /*@C02.doc.grammar-frame*/'
+EVOK = 'l3::events_ok(old(p).sp_events()) ==> l3::events_ok(final(p).sp_events()) /*@C02.doc.events-ok-preserved*/'
+EVOK_SELF = EVOK.replace('(p)', '(self)')
+EVOK_INV_P = 'l3::events_ok(old(p).sp_events()) ==> l3::events_ok(p.sp_events()) /*@C02.doc.events-ok-preserved*/'
+EVOK_INV_SELF = 'l3::events_ok(old(self).sp_events()) ==> l3::events_ok(self.sp_events()) /*@C02.doc.events-ok-preserved*/'
+STD_ENS = 'gram_post(old(p), final(p)) /*@C01.docparser.grammar-keeps-invariant*/,\n        ' + EVOK
 
 # the chaining of driver / marker / grammar steps (lemmas of unit c01_doc, bodies verified there and here) + marker liveness
-GB = 'broadcast use {lemma_gstep_trans, lemma_gstep_of_drive, lemma_gstep_of_marker, lemma_mlive_mono};'
-B0 = GB + '\nproof { lemma_gstep_refl(&*p); }'
+GB = 'broadcast use {lemma_gstep_ext, lemma_gstep_of_drive, lemma_gstep_of_marker, lemma_gstep_frame, lemma_mlive_mono};'
+HIDE = 'hide(dinv); hide(ate); hide(l3::events_ok);'
+HIDE_EV = 'hide(l3::events_ok); broadcast use lemma_evok_push;'
+B0 = HIDE + '\n' + GB + '\nproof { lemma_anchor(&*p); lemma_gstep_refl(&*p); }'
+GL = GB + '\nproof { lemma_anchor(old(p)); }'          # first statement of every loop body (rule ghost-loop-prelude)
 
 DINV_DOC = ('the range of the pending TkEof token starts on a char boundary - needed for `p.current_token_text()` at end of input '
             '(parse_fun_type after `---@overload` / `async` at the end of the comment); TkEof is set by calc_next_current_token (range = [span end, span end)), '
             'eat_current_and_lex_next and re_calc_cast_type (range of the token just eaten / re-lexed kept): re-proved for all driver functions')
+
+DINV_DOC2 = ('while the doc lexer has no reader yet, the pending token is of a kind that does not come out of the lexer (quiet_kind) - needed for '
+             '`lexer.lex()` (= `self.reader.as_mut().unwrap()`) on the clone of the lexer in is_mapped_type, called at a pending `[`')
 
 REAL = 'real_kind(old(p).current_token)'
 CMOK = 'cm_ok(r, final(p).sp_events()) /*@C02.doc.complete-marker-live*/'
@@ -27,7 +37,7 @@ CMOK = 'cm_ok(r, final(p).sp_events()) /*@C02.doc.complete-marker-live*/'
 
 def LOOP(*live, lvl='>', extra=''):
     """invariant of a grammar loop: the frame so far, the open markers are live, the measure decreases"""
-    inv = ['gram_pre(old(p))', 'gstep(old(p), p)', 'plvl_ok(p)', 'p.sp_level() %s old(p).sp_level()' % lvl]
+    inv = ['gram_pre(old(p))', 'gstep(old(p), p)', 'plvl_ok(p)', 'p.sp_level() %s old(p).sp_level()' % lvl, EVOK_INV_P]
     inv += ['mlive(%s, p.sp_events())' % m for m in live]
     if extra: inv.append(extra.strip().rstrip(','))
     return '\n    invariant\n        ' + ',\n        '.join(inv) + ',\n    decreases rem(p) /*@C02.doc.progress*/\n'
@@ -78,10 +88,30 @@ TYPES_SECTION = [
 # contract extensions of the driver functions of unit c01_doc (same extracted text; see unit.py step 4)
 # ---------------------------------------------------------------------------------------------------------
 DRIVER_EXT = {
+    # C02 / H-EV: l3::events_ok (units/c01_green/iface.rs) is preserved by every driver function (EatToken events carry no parent link)
+    'LuaDocParser::init': {'ensures+': EVOK_SELF},
+    'LuaDocParser::calc_next_current_token': {'ensures+': EVOK_SELF, 'loops+': {0: EVOK_INV_SELF, 1: EVOK_INV_SELF, 2: EVOK_INV_SELF, 3: EVOK_INV_SELF}},
+    'LuaDocParser::eat_current_and_lex_next': {'ensures+': EVOK_SELF, 'body_first+': HIDE_EV},
+    'LuaDocParser::set_lexer_state': {'ensures+': EVOK_SELF},
+    'LuaDocParser::re_calc_detail': {'ensures+': EVOK_SELF},
+    'LuaDocParser::re_calc_cast_type': {'ensures+': EVOK_SELF},
+    'LuaDocParser::bump_to_end': {'ensures+': EVOK_SELF},
+    'LuaDocParser::parse': {'ensures+': 'l3::events_ok(old(lua_parser).events@) ==> l3::events_ok(final(lua_parser).events@) /*@C02.doc.events-ok-preserved*/'},
+    'parse_comment': {'ensures+': EVOK},
+    'parse_docs': {'ensures+': EVOK, 'loops+': {0: EVOK_INV_P, 1: EVOK_INV_P}},
+    'parse_description': {'ensures+': EVOK, 'loops+': {0: EVOK_INV_P}},
+    'if_token_bump': {'ensures+': EVOK},
     # a bump at a real token pushes an event: a node that contains a bumped token is not empty (so `complete` closes it and its
     # CompleteMarker is live)
     'LuaDocParser::bump': {
-        'ensures+': 'real_kind(old(self).current_token) ==> final(self).sp_events().len() > old(self).sp_events().len() /*@C02.doc.bump-pushes-an-event*/'},
+        'body_first+': HIDE_EV,
+        'ensures+': EVOK_SELF + ',\n        real_kind(old(self).current_token) ==> final(self).sp_events().len() > old(self).sp_events().len() /*@C02.doc.bump-pushes-an-event*/'},
+    # second strengthening of dinv (quiet_kind): lex_token says where its token comes from; set_current_token_kind may only assign a quiet kind
+    # while there is no reader (its two callers assign TkDocConst / TkDocInfer)
+    'LuaDocParser::lex_token': {
+        'ensures+': 'final(self).lexer.reader is None ==> (t.kind is TkEof || t.kind is TkEndOfLine || t.kind is TkWhitespace || t.kind is TkShebang) /*@C02.doc.unlexed-tokens-are-quiet*/'},
+    'LuaDocParser::set_current_token_kind': {
+        'requires=': 'dinv(old(self)), real_kind(old(self).current_token), real_kind(kind), old(self).lexer.reader is None ==> quiet_kind(kind)'},
     # the text of the pending token may also be asked for at TkEof (strengthened dinv)
     'LuaDocParser::current_token_text': {
         'requires=': 'dinv(self), !(self.current_token is None)'},
@@ -103,6 +133,16 @@ def tag(**kw):
     return d
 
 
+# TERMINATION of the recursion (types.rs + parse_generic_decl_list / parse_generic_param of tag.rs): `decreases rem(old(p)), rank`.
+# rem = bytes of the comment span behind the eaten frontier; it never grows (gstep) and shrinks with every bump of a real token.
+# A call is allowed either after such a bump (the token kind has just been tested, or expect_token returned Ok) or to a lower rank:
+#   23 parse_fun_return_list > 22 parse_fun_return_type > 21 parse_type_list > 20 parse_type > 19 parse_multi_line_union_type
+#   > 18 parse_extends_conditional_type > 17 parse_one_line_type > 15 parse_sub_type > 14 parse_simple_type > 13 parse_binary_operator
+#   > 12 parse_primary_type > 11 parse_suffixed_type > 10 parse_object_or_mapped_type, parse_tuple_type, parse_paren_type,
+#   parse_name_or_func_type, parse_constructor_type > 9 parse_mapped_type, parse_typed_field, parse_fun_type
+#   > 8 parse_mapped_key, parse_typed_param, parse_generic_decl_list > 7 parse_generic_param
+# e.g. parse_sub_type -> parse_sub_type (same rank) only after the bump of the unary operator token; parse_binary_operator (13) ->
+# parse_sub_type (15) only after the bump of the binary operator token; parse_suffixed_type (11) -> parse_type (20) after the bump of `[`.
 LVL_SAME = 'final(p).sp_level() == old(p).sp_level()'
 COMMA = 'p.current_token() == LuaTokenKind::TkComma'
 
@@ -119,7 +159,7 @@ ITEMS = {
         'rules': [PUSH_ERR],
         'loops': {0: """
     invariant
-        gram_pre(old(p)), gstep(old(p), p), plvl_ok(p), level == old(p).sp_level(), current_level >= level,
+        gram_pre(old(p)), gstep(old(p), p), plvl_ok(p), level == old(p).sp_level(), current_level >= level, """ + EVOK_INV_P + """,
         VERUS_ghost_iter.seq().len() == current_level - level,
         p.sp_level() == current_level - VERUS_ghost_iter.index() /*@C02.doc.recovery-closes-open-nodes*/,
 """}},
@@ -185,12 +225,21 @@ ITEMS = {
     'parse_mapped_type': {
         'ret': 'r', 'std': False, 'rank': 9, 'rules': [T_MSG],
         'requires': STD_REQ + ', mlive(m.position, old(p).sp_events()), old(p).sp_events().len() > m.position + 1, old(p).sp_level() > 0',
-        'ensures': """gstep(old(p), final(p)) /*@C02.doc.grammar-frame*/, plvl_ok(final(p)),
+        'ensures': """gstep(old(p), final(p)) /*@C01.docparser.grammar-keeps-invariant*/, plvl_ok(final(p)),
         final(p).sp_level() + 1 >= old(p).sp_level(), r is Err ==> final(p).sp_level() >= old(p).sp_level(),
-        """ + CMOK},
+        """ + EVOK + ',\n        ' + CMOK},
     'parse_mapped_key': tag(rank=8),
     'parse_object_or_mapped_type': tag(rank=10, requires=REAL, ensures=CMOK, loops={0: LOOP('m.position')}),
-    'is_mapped_type': {'assume': True},
+    'is_mapped_type': {
+        'ret': 'r',
+        'requires': 'dinv(p), !quiet_kind(p.current_token)',
+        'loops': {0: """
+    invariant
+        lexer.reader is Some, rinv(&lexer.reader->0),
+    decreases r_n(&lexer.reader->0) - consumed(&lexer.reader->0) /*@C02.doc.progress*/
+"""},
+        'proof': [(r'let kind = lexer\.lex\(\);', 'before', 'let ghost lx0 = lexer;\nproof { lemma_rinv(&lx0.reader->0); }'),
+                  (r'let kind = lexer\.lex\(\);', 'after', 'proof { lemma_rinv(&lexer.reader->0); }')]},
     'parse_typed_field': tag(rank=9, rules=[T_MSG]),
     'parse_tuple_type': tag(rank=10, requires=REAL, ensures=CMOK, loops={0: LOOP('m.position')}),
     'parse_paren_type': tag(rank=10, requires=REAL, ensures=CMOK),
@@ -212,10 +261,101 @@ ITEMS = {
     'parse_constructor_type': tag(rank=10, rules=[T_MSG, PUSH_ERR], ensures=CMOK),
 }
 
-MUTANTS = []
 
-TRUSTED = []
+def _mut(name, item, pattern, repl, expect):
+    return {'name': name, 'item': 'g::' + item if not item.startswith(('CompleteMarker', 'Marker', 'LuaDocParser')) else item, 'pattern': pattern, 'repl': repl, 'expect': expect}
 
-NOT_COVERED = []
 
-SAMPLES = []
+MUTANTS = [
+    # ---- (c) loops make progress
+    _mut('gdoc-type-list-loop-without-bump', 'parse_type_list', r'(while p\.current_token\(\) == LuaTokenKind::TkComma \{\s*)p\.bump\(\);', r'\1',
+         r'g::parse_type_list:decreases-not-satisfied'),
+    _mut('gdoc-suffix-generic-without-bump', 'parse_suffixed_type', r'(let m = cm\.precede\(p, LuaSyntaxKind::TypeGeneric\);\s*)p\.bump\(\);', r'\1',
+         r'g::parse_suffixed_type:(decreases-not-satisfied|could-not-prove-termination)'),
+    _mut('gdoc-attribute-args-comma-not-eaten', 'parse_attribute_arg_list', r'p\.bump\(\); // consume comma', '',
+         r'g::parse_attribute_arg_list:decreases-not-satisfied'),
+    _mut('gdoc-multi-line-union-without-bump', 'parse_multi_line_union_type', r'(TkDocContinueOr \{\s*)p\.bump\(\);', r'\1',
+         r'g::parse_multi_line_union_type:(decreases-not-satisfied|could-not-prove-termination)'),
+    _mut('gdoc-mapped-lookahead-ignores-eof', 'is_mapped_type', r'LuaTokenKind::TkEof => return false,', 'LuaTokenKind::TkEof => {}',
+         r'g::is_mapped_type:decreases-not-satisfied'),
+    # ---- (d) the recursion through the type grammar terminates
+    _mut('gdoc-unary-type-without-bump', 'parse_sub_type', r'(let m = p\.mark\(LuaSyntaxKind::TypeUnary\);\s*)p\.bump\(\);', r'\1',
+         r'g::parse_sub_type:could-not-prove-termination'),
+    _mut('gdoc-binary-type-without-bump', 'parse_binary_operator', r'(let m = cm\.precede\(p, LuaSyntaxKind::TypeBinary\);\s*)p\.bump\(\);', r'\1',
+         r'g::parse_binary_operator:(decreases-not-satisfied|could-not-prove-termination)'),
+    _mut('gdoc-conditional-type-without-bump', 'parse_extends_conditional_type', r'(let m = cm\.precede\(p, LuaSyntaxKind::TypeConditional\);\s*)p\.bump\(\);', r'\1',
+         r'g::parse_extends_conditional_type:could-not-prove-termination'),
+    _mut('gdoc-paren-type-without-bump', 'parse_paren_type', r'p\.bump\(\);\s*(let cm = parse_type\(p\)\?;)', r'\1',
+         r'g::parse_paren_type:could-not-prove-termination'),
+    # ---- (a) marker API preconditions / no panic
+    _mut('gdoc-recovery-one-node-end-too-many', 'parse_tag', r'0\.\.\(current_level - level\)', '0..(current_level - level + 1)',
+         r'g::parse_tag:'),
+    _mut('gdoc-recovery-level-difference-reversed', 'parse_tag', r'0\.\.\(current_level - level\)', '0..(level - current_level)',
+         r'g::parse_tag:possible-arithmetic-underflow'),
+    _mut('gdoc-precede-on-empty-marker', 'parse_cast_expr', r'let mut cm = m\.complete\(p\);', 'm.complete(p); let mut cm = CompleteMarker::empty();',
+         r'g::parse_cast_expr:(invariant-not-satisfied|precondition-not-satisfied)'),
+    _mut('gdoc-name-type-at-eof-preceded', 'parse_vararg_type', r'parse_name_type\(p\)\?;\s*Ok\(m\.complete\(p\)\)', 'm.complete(p); parse_name_type(p)',
+         r'C02\.doc\.complete-marker-live'),
+    _mut('gdoc-infer-kind-eof', 'parse_infer_type', r'set_current_token_kind\(LuaTokenKind::TkDocInfer\)', 'set_current_token_kind(LuaTokenKind::TkEof)',
+         r'g::parse_infer_type:precondition-not-satisfied'),
+    _mut('gdoc-const-kind-without-name-test', 'parse_generic_modifier', r'p\.current_token\(\) == LuaTokenKind::TkName && p\.current_token_text\(\) == "const"', 'p.current_token_text() == "const"',
+         r'g::parse_generic_modifier:precondition-not-satisfied'),
+    _mut('gdoc-complete-without-open-node', 'parse_literal_type', r'let m = p\.mark\(LuaSyntaxKind::TypeLiteral\);', 'let m = Marker::new(0);',
+         r'g::parse_literal_type:precondition-not-satisfied'),
+    # ---- events_ok (C02 / H-EV): precede is the only writer of `parent`
+    _mut('gdoc-precede-parent-self', 'CompleteMarker::precede', r'\*parent = m\.position', '*parent = self.start', r'C02\.events-ok-preserved'),
+    # ---- driver clauses added by this unit
+    _mut('gdoc-trivia-state-assigns-lexer-kind', 'LuaDocParser::set_lexer_state', r'self\.current_token = LuaTokenKind::TkDocTrivia;', 'self.current_token = LuaTokenKind::TkLeftBracket;',
+         r'C01\.docparser\.invariant|LuaDocParser::set_lexer_state:'),
+]
+
+
+TRUSTED = [
+    'DISCHARGED here (was ASSUMED by unit c01_doc): the frame contract gram_pre / gram_post of parse_tag / parse_long_tag, and the preconditions of every driver / marker '
+    'function at every call site in grammar/doc/{mod,tag,types}.rs - with respect to the STRENGTHENED driver invariant of this unit (next entry)',
+    'DEVIATION from unit c01_doc (specification, not an assumption): `dinv` is strengthened by two conjuncts, patched into units/c01_doc/driver_spec.rs at assembly time (unit.py step 2): '
+    '(1) TkEof arm: the range of the pending TkEof token starts on a char boundary (for current_token_text() at end of input); (2) lexer.reader is None ==> quiet_kind(current_token) '
+    '(for the unwrap in LuaDocLexer::lex on the clone in is_mapped_type). ALL driver functions of c01_doc, parse_comment / parse_docs / parse_description / if_token_bump and '
+    'LuaDocParser::parse (same top-level contract as in c01_doc, plus events_ok) are re-proved here against the stronger invariant, so this unit subsumes c01_doc; the text '
+    '`requires gram_pre(old(p)) ensures gram_post(old(p), final(p))` of parse_tag / parse_long_tag is kept',
+    'contract changes of driver functions (same extracted text, re-proved): set_current_token_kind additionally requires `reader is None ==> quiet_kind(kind)` (both callers assign '
+    'TkDocConst / TkDocInfer); current_token_text requires only `current_token != None` (was: a real kind); bump ensures that a real token pushes an event; lex_token ensures that a token '
+    'produced while there is no reader is TkEof / end of line / whitespace / shebang; set_parser_state ensures a step; every driver function ensures events_ok preservation',
+    'marker API: contracts and proof overlay imported from unit c01_parser (Marker::{set_kind,complete,undo}, CompleteMarker::{precede,empty,is_invalid}, mark, push_node_end, with '
+    'events_ok), generic over P: MarkerEventContainer, re-proved here with the doc parser\'s ghost interface (prophetic sp_rest)',
+    'LuaParseError: opaque external type; syntax_error_from / doc_error_from / clone ASSUMED total (the conversion SourceRange -> rowan TextRange asserts start <= end after truncation to u32: '
+    'true for ranges inside a text shorter than 4 GiB, DESIGN.md section 4)',
+    'vx_msg() for `&t!(..)` (rule doc-t-msg: rust-i18n lookup ASSUMED total, text irrelevant); vx_note_error(e) for `p.push_error(e)` (rule doc-push-error: writes only the projected-out field '
+    'LuaParser.errors)',
+    'LuaTypeBinaryOperator::get_priority: ASSUMED total, result unconstrained (`&PRIORITY[*self as usize]`: 7 table entries for 7 variants; Verus cannot take the const slice literal)',
+    'LuaDocLexer::clone (derive(Clone)): ASSUMED `result == *self`; PartialEqSpecImpl for the derived PartialEq of LuaTypeUnaryOperator / LuaTypeBinaryOperator (structural equality)',
+    'rewrite rules of this unit: doc-t-msg, doc-push-error (error reporting only), ghost-loop-prelude (ghost text only), body-unimplemented (not used: no grammar fn is assumed)',
+    'vacuity guards: the precondition gram_pre alone is guarded at parse_tag (and at the base functions); grammar fns whose requires is exactly gram_pre get no guard of their own, fns with '
+    'additional requires clauses do',
+]
+
+NOT_COVERED = [
+    'stack depth: the recursion through the type grammar terminates (decreases rem, rank) but its depth is bounded only by the length of the comment - deep nesting overflows a small '
+    'stack (known finding of C02, replay/c02: doc-paren / doc-generic / doc-union-fun)',
+    'LuaDocParser::push_error and the content of `errors` (projected out); message texts (t!); which syntax kinds the nodes get and the shape of the tree (only: events_ok, marker '
+    'discipline, every byte eaten exactly once)',
+    'mark_level is only proved to stay >= its entry value: `complete` of an EMPTY node does not decrement it, so after such a node parse_tag\'s error recovery '
+    '(`for _ in 0..(current_level - level) { push_node_end }`) can emit more NodeEnd events than there are open nodes of the tag (by reading: `---@field [...` at the very end of the '
+    'input: parse_vararg_type -> parse_name_type at TkEof marks and completes an empty TypeName, then expect_token(`]`) fails). No panic follows in the parser; the tree builder tolerates '
+    'unbalanced NodeEnds (finish_node returns on an empty parent stack; c01_green fix_finish). Not a claimed clause; reported as an observation',
+    'the composition with unit c01_parser (replacing its external_body shim of LuaDocParser::parse, whose assumed contract - including events_ok preservation - is what this unit proves) is '
+    'not mechanised: the precondition gap listed by c01_doc (dtoks_ok: char boundaries of the comment tokens) remains',
+    'grammar/doc/test.rs (cfg(test))',
+]
+
+SAMPLES = [
+    'every grammar fn f(p: &mut LuaDocParser, ..) of grammar/doc/{mod,tag,types}.rs: requires gram_pre(old(p)) ensures gram_post(old(p), final(p)), events_ok(old events) ==> events_ok(final events); '
+    'every precondition of bump / set_lexer_state / set_current_token_kind / current_token_text / mark / complete / set_kind / precede / push_node_end proved at every call site',
+    'type grammar (parse_type -> parse_sub_type -> parse_simple_type -> parse_primary_type -> ... -> parse_type; parse_fun_type -> parse_generic_decl_list -> parse_generic_param -> parse_type): '
+    'decreases rem(old(p)) = span end - eaten frontier, then a rank: every call is made either after a bump of a token known to be real or to a fn of lower rank',
+    'every loop: `decreases rem(p)`: each iteration bumps a token whose kind was just tested (`,`, `|`, `[`, `<`, `?`, `.`, an operator token), so the frontier moves',
+    'Ok(cm) of a type parser is live (cm_ok): cm.start holds a NodeStart, so `cm.precede(..)` in parse_type / parse_binary_operator / parse_suffixed_type / parse_extends_conditional_type never '
+    'reaches unreachable!() - in particular never `precede` on the start: 0 marker that `complete` returns for an empty node',
+    'parse_tag: after Err the recovery loop closes exactly current_level - level nodes: no underflow of the difference, mark_level > 0 at every push_node_end',
+    'is_mapped_type: the look-ahead works on a clone of the lexer (p is a shared reference: untouched), its reader exists (pending `[` is not a quiet kind), every lex() consumes input until TkEof',
+]
